@@ -87,6 +87,7 @@ REVIEWED_DELETES: Dict[Tuple[str, str], tuple] = {
         "WS",
         "second site: iterates select_targets_info.pre_from_whitespace, which _get_indexes builds as list(siblings_post.select(sp.is_type('whitespace'), stop_seg=from_segment))",
         ["pre_from_whitespace = siblings_post.select(sp.is_type('whitespace'), stop_seg=from_segment)", "list(pre_from_whitespace)"],
+        1,
     ),
     (L + "LT09.py::Rule_LT09._eval_single_select_target_element", "LintFix.delete(seg)"): (
         "MOVE+WS",
@@ -101,26 +102,31 @@ REVIEWED_DELETES: Dict[Tuple[str, str], tuple] = {
             "to_delete = select_children.reversed().select(loop_while=sp.is_type('whitespace'), start_seg=select_children[start_idx])",
             "LintFix.create_after(select_clause[0], ([NewlineSegment()] if add_newline else []) + list(move_after_select_clause))",
         ],
+        2,
     ),
     (F + "rebreak.py::rebreak_sequence", "LintFix.delete(seg)"): (
         "WS",
         "iterates elem_buff[loc.prev.adj_pt_idx].segments / elem_buff[loc.next.adj_pt_idx].segments: adj_pt_idx is by construction (_RebreakIndices.from_elements) the index of the ReflowPoint adjacent to the target",
         ["for seg in elem_buff[loc.prev.adj_pt_idx].segments:", "for seg in elem_buff[loc.next.adj_pt_idx].segments:"],
+        2,
     ),
     (F + "respace.py::process_spacing", "LintFix.delete(seg)"): (
         "WS",
         "first site is guarded by seg.is_type('newline'); the second (duplicate-whitespace branch) deletes the last loop value of `for seg in segment_buffer`, and the only caller passes list(self.segments) of a ReflowPoint",
         ["for seg in segment_buffer:", "strip_newlines and seg.is_type('newline')"],
+        1,
     ),
     (F + "respace.py::handle_respace__inline_with_space", "LintFix.delete(last_whitespace)"): (
         "WS",
         "last_whitespace is process_spacing()'s second result (only ever a segment that passed is_type('whitespace')); the only caller is ReflowPoint.respace_point under `if last_whitespace`",
         ["last_whitespace: RawSegment"],
+        1,
     ),
     (F + "sequence.py::ReflowSequence.without", "LintFix.delete(target)"): (
         "API",
         "public helper whose purpose is to remove a caller-chosen block; no caller in rules/layout or utils/reflow (checked below), used by non-layout rules only",
         [],
+        1,
     ),
 }
 
@@ -129,9 +135,20 @@ REVIEWED_EDITS: Dict[Tuple[str, str], tuple] = {
         "WS",
         "last_whitespace is process_spacing()'s second result (a segment that passed is_type('whitespace'))",
         ["last_whitespace: RawSegment"],
+        1,
     ),
 }
 
+
+REVIEWED_POINTS: Dict[Tuple[str, str], tuple] = {
+    (F + "sequence.py::ReflowSequence.without",
+     "ReflowPoint(segments=self.elements[removal_idx - 1].segments + self.elements[removal_idx + 1].segments)"): (
+        "WS",
+        "elements alternate block/point and the removed element is checked not to be a ReflowPoint, so its two neighbours are points",
+        ["isinstance(self.elements[removal_idx], ReflowPoint)"],
+        1,
+    ),
+}
 
 # ---------------------------------------------------------------------------
 # prover
@@ -139,9 +156,10 @@ REVIEWED_EDITS: Dict[Tuple[str, str], tuple] = {
 
 
 class Prover:
-    def __init__(self, repo):
+    def __init__(self, repo, mods=()):
         self.repo = repo
-        self._point_cls = None
+        self.mods = list(mods)
+        self._inprogress = set()
 
     # -- helpers ------------------------------------------------------------
     def _const_types(self, func, args, at) -> Optional[set]:
@@ -226,7 +244,24 @@ class Prover:
                     return "WS", short(atom, 70)
                 if atom.attr in ("is_code", "is_comment") and pol:
                     verdict = ("NONWS", short(atom, 70))
+            elif isinstance(atom, ast.BoolOp) and isinstance(atom.op, ast.Or) and pol and self._same_binding(func, names, g, at):
+                # every alternative is whitespace evidence for the same expression
+                if all(self._ws_evidence(func, v, text, at) for v in atom.values):
+                    return "WS", short(atom, 90)
         return verdict
+
+    def _ws_evidence(self, func, v: ast.AST, text: str, at) -> bool:
+        if isinstance(v, ast.Call) and isinstance(v.func, ast.Attribute) and v.func.attr == "is_type" and norm(v.func.value) == text:
+            ts = self._const_types(func, v.args, at)
+            return ts is not None and ts <= WS_TYPES
+        if isinstance(v, ast.Attribute) and v.attr == "is_whitespace" and norm(v.value) == text:
+            return True
+        # (get_consumed_whitespace(x) or "").isspace(): a template placeholder that swallowed only whitespace
+        if isinstance(v, ast.Call) and isinstance(v.func, ast.Attribute) and v.func.attr == "isspace" and not v.args:
+            for n in ast.walk(v.func.value):
+                if isinstance(n, ast.Call) and call_name(n) == "get_consumed_whitespace" and len(n.args) == 1 and norm(n.args[0]) == text:
+                    return True
+        return False
 
     def _ws_pred(self, func, p: Optional[ast.AST], at) -> bool:
         if p is None:
@@ -297,6 +332,11 @@ class Prover:
             return "None"
         if isinstance(e, ast.Call) and call_name(e) in ("cast", "typing.cast") and len(e.args) == 2:
             return self.seg(func, e.args[1], at, depth + 1)
+        if isinstance(e, ast.Call) and call_name(e) in WS_CLASSES:
+            return f"{call_name(e)}(..)"
+        if isinstance(e, ast.Call) and isinstance(e.func, ast.Attribute) and e.func.attr == "edit":
+            r = self.seg(func, e.func.value, at, depth + 1)
+            return f"edit of [{r}]" if r else None
         if isinstance(e, ast.IfExp):
             a, b = self.seg(func, e.body, at, depth + 1), self.seg(func, e.orelse, at, depth + 1)
             return f"{a} | {b}" if a and b else None
@@ -324,6 +364,8 @@ class Prover:
                 r = None
                 if d.kind == "assign":
                     r = self._through(func, d.value, d.path, d.stmt, depth, "seg")
+                elif d.kind == "param":
+                    r = self._param(func, e.id, "seg", depth)
                 elif d.kind == "for":
                     it = d.value
                     path = d.path
@@ -384,6 +426,49 @@ class Prover:
             return f"{callee[1].name}()[{path[0]}]: " + " / ".join(sorted(set(rs))) if rs else None
         return None
 
+    def _param(self, func, name: str, mode: str, depth: int) -> Optional[str]:
+        """Parameter of a function in scope: every call site in scope passes a proven value."""
+        if depth > MAX_DEPTH or not isinstance(func, FuncNode):
+            return None
+        key = (id(func), name, mode)
+        if key in self._inprogress:
+            return "(recursive)"
+        params = [a.arg for a in func.args.posonlyargs + func.args.args]
+        if name not in params or name in ("self", "cls"):
+            return None
+        idx = params.index(name)
+        is_method = enclosing_class(func) is not None and params[:1] in (["self"], ["cls"])
+        callers = []
+        for m in self.mods:
+            for c in ast.walk(m.tree):
+                if not isinstance(c, ast.Call):
+                    continue
+                if is_method:
+                    if isinstance(c.func, ast.Attribute) and c.func.attr == func.name:
+                        callers.append((m, c, idx - 1))
+                elif isinstance(c.func, ast.Name) and c.func.id == func.name:
+                    r = self.repo.resolve_name(m, func.name)
+                    if r and r[1] is func:
+                        callers.append((m, c, idx))
+        if not callers:
+            return None
+        self._inprogress.add(key)
+        try:
+            rs = []
+            for m, c, i in callers:
+                a = arg_of(c, i, name)
+                cf = _outer_function(c)
+                if a is None or not isinstance(cf, FuncNode):
+                    return None
+                at = cfg_of(cf).stmt_of(c)
+                r = (self.seg if mode == "seg" else self.coll)(cf, a, at, depth + 1)
+                if r is None:
+                    return None
+                rs.append(r)
+            return f"parameter '{name}': every caller in scope passes " + " / ".join(sorted(set(rs)))
+        finally:
+            self._inprogress.discard(key)
+
     def _crawler_types(self, m, c) -> Optional[set]:
         for mm, cc in self.repo.mro(m, c):
             for item in cc.body:
@@ -423,7 +508,7 @@ class Prover:
             return self.coll(func, e.value, at, depth + 1)
         if isinstance(e, (ast.ListComp, ast.GeneratorExp)) and len(e.generators) == 1:
             gen = e.generators[0]
-            if isinstance(gen.target, ast.Name) and isinstance(e.elt, ast.Name) and e.elt.id == gen.target.id:
+            if isinstance(gen.target, ast.Name):
                 r = self.seg(func, e.elt, at, depth + 1)
                 return f"comprehension({r})" if r else None
             return None
@@ -443,9 +528,20 @@ class Prover:
                     r = self._through(func, d.value, d.path, d.stmt, depth, "coll")
                 elif d.kind == "aug":
                     r = self.coll(func, d.value, d.stmt, depth + 1)
+                elif d.kind == "param":
+                    r = self._param(func, e.id, "coll", depth)
                 if r is None:
                     return None
                 rs.append(r)
+            # element stores  name[i] = x
+            for c in walk_local(func):
+                if isinstance(c, ast.Assign):
+                    for t in c.targets:
+                        if isinstance(t, ast.Subscript) and isinstance(t.value, ast.Name) and t.value.id == e.id and not isinstance(t.slice, ast.Slice):
+                            r = self.seg(func, c.value, c, depth + 1)
+                            if r is None:
+                                return None
+                            rs.append(f"store({r})")
             # in-place growth of the list anywhere in the function
             for c in walk_local(func):
                 if isinstance(c, ast.Call) and isinstance(c.func, ast.Attribute) and isinstance(c.func.value, ast.Name) and c.func.value.id == e.id:
@@ -753,8 +849,9 @@ def run(chk) -> None:
     chk.rule("R14a", "in rules/layout and utils/reflow only WhitespaceSegment/NewlineSegment are constructed (constant text whitespace-only); x.edit(raw) only on whitespace/newline/indent receivers; other .edit() calls pass only source_fixes/source_str")
     chk.rule("R14b", "every LintFix delete in rules/layout and utils/reflow removes something established as whitespace/newline/indent, or is one half of a move (same expression re-created alongside), or is a reviewed site whose recorded facts still hold; layout rules do not call ReflowSequence.without()")
     repo = chk.repo
-    pv = Prover(repo)
     mods = [m for s in SCOPES for m in repo.iter_modules(s)]
+    pv = Prover(repo, mods)
+    used: Dict[Tuple[str, str], int] = {}
     if len(mods) < 15:
         raise AnalysisError(f"layout/reflow scope has only {len(mods)} modules")
     seen_del, seen_edit = set(), set()
@@ -805,12 +902,27 @@ def run(chk) -> None:
                     chk.count("R14a.reflowpoint_constructions")
                     segs = arg_of(n, 0, "segments")
                     r = pv.coll(func, segs, at) if segs is not None and func is not None else None
-                    if r is None and segs is not None and _point_rebuild(pv, func, segs, at):
-                        r = "rebuilt from a point's own segments and whitespace-like replacements"
-                    if r is None:
-                        chk.count("R14a.reflowpoint_args_unproven")
-                    else:
+                    if segs is None:
+                        r = "no segments"
+                    if r is not None:
                         chk.count("R14a.reflowpoint_args_whitespace")
+                        chk.ok("R14a", construct_of(n), f"{short(n, 70)} [{r[:80]}]")
+                        continue
+                    key = _key(m, func, n)
+                    ent = REVIEWED_POINTS.get(key)
+                    if ent is not None:
+                        seen_edit.add(key)
+                        used[key] = used.get(key, 0) + 1
+                        missing = _witnesses_ok(func, ent[2])
+                        chk.require(not missing and used[key] <= ent[3], "R14a", n, f"reviewed ReflowPoint construction relied on {missing or 'a single site'}", detail=f"reviewed point: {short(n, 100)}")
+                        chk.count("R14a.reflowpoint_args_reviewed")
+                        continue
+                    chk.fail(
+                        "R14a", n,
+                        f"ReflowPoint built from {short(segs, 60)!r}, which is not established to hold only whitespace/newline/indent segments: "
+                        "the ReflowPoint invariant (points hold nothing but whitespace) is what licenses the deletes and edits of point segments",
+                        detail=f"point segments: {short(n, 100)}",
+                    )
                     continue
             # ---------------- .edit(...) ---------------------------------------
             if la == "edit" and isinstance(n.func, ast.Attribute):
@@ -826,8 +938,6 @@ def run(chk) -> None:
                     chk.count("R14a.edit_sourcefix_only")
                     continue
                 r = pv.seg(func, recv, at) if func is not None else None
-                if r is None and func is not None:
-                    r = _point_member(pv, func, recv, at)
                 if r is not None:
                     chk.count("R14a.edit_raw_on_whitespace")
                     chk.ok("R14a", construct_of(n), f"{short(n, 80)} [{r[:80]}]")
@@ -845,8 +955,9 @@ def run(chk) -> None:
                 ent = REVIEWED_EDITS.get(key)
                 if ent is not None:
                     seen_edit.add(key)
+                    used[key] = used.get(key, 0) + 1
                     missing = _witnesses_ok(func, ent[2])
-                    chk.require(not missing, "R14a", n, f"reviewed .edit(raw) site relied on {missing} which is no longer in the function", detail=f"reviewed edit: {short(n, 100)}")
+                    chk.require(not missing and used[key] <= ent[3], "R14a", n, f"reviewed .edit(raw) site relied on {missing or 'being the only such site in the function'}", detail=f"reviewed edit: {short(n, 100)}")
                     chk.count("R14a.edit_reviewed")
                     continue
                 chk.count("R14a.edit_ambiguous")
@@ -885,8 +996,6 @@ def run(chk) -> None:
                 chk.fail("R14b", n, "delete fix whose anchor expression cannot be located", detail=f"delete: {short(n, 100)}")
                 continue
             r = pv.seg(func, recv, at)
-            if r is None:
-                r = _point_member(pv, func, recv, at)
             if r is not None:
                 chk.count("R14b.delete_WS")
                 chk.ok("R14b", construct_of(n), f"{short(n, 60)} WS[{r[:90]}]")
@@ -902,11 +1011,17 @@ def run(chk) -> None:
             ent = REVIEWED_DELETES.get(key)
             if ent is not None:
                 seen_del.add(key)
+                used[key] = used.get(key, 0) + 1
                 missing = _witnesses_ok(func, ent[2])
                 chk.require(
                     not missing, "R14b", n,
                     f"delete site was classified {ent[0]} on the strength of {missing!r}, which no longer occurs in the code: the deleted segment is no longer established as whitespace / moved",
                     detail=f"reviewed delete: {short(n, 80)}",
+                )
+                chk.require(
+                    used[key] <= ent[3], "R14b", n,
+                    f"{used[key]} unproven delete sites with this text in the function, only {ent[3]} were reviewed: a new delete is not covered by the review",
+                    detail=f"reviewed delete count: {short(n, 80)}",
                 )
                 chk.count("R14b.delete_reviewed")
                 continue
@@ -921,7 +1036,7 @@ def run(chk) -> None:
     if ambiguous:
         chk.note("R14a .edit(raw) receivers about which nothing is known (not judged): " + "; ".join(ambiguous))
     # callers of without() anywhere in reflow utilities (API entry is fine, internal use is not)
-    stale = [k for k in list(REVIEWED_DELETES) + list(REVIEWED_EDITS) if k not in seen_del and k not in seen_edit]
+    stale = [k for k in list(REVIEWED_DELETES) + list(REVIEWED_EDITS) + list(REVIEWED_POINTS) if k not in seen_del and k not in seen_edit]
     chk.count("R14b.table_entries_unused", len(stale))
     if stale:
         chk.note("reviewed-table entries not needed on this tree (site proven mechanically or gone): " + "; ".join(f"{a}: {b}" for a, b in stale))
@@ -929,15 +1044,6 @@ def run(chk) -> None:
     chk.floor("R14a.edit_sites", 4)
     chk.floor("R14b.delete_sites", 20)
     chk.floor("R14a.reflowpoint_constructions", 10)
-
-
-def _point_member(pv: Prover, func, recv: ast.AST, at) -> Optional[str]:
-    """x picked out of a ReflowPoint's segments by a loop that only filters."""
-    return None
-
-
-def _point_rebuild(pv: Prover, func, segs: ast.AST, at) -> bool:
-    return False
 
 
 # ---------------------------------------------------------------------------
